@@ -9,6 +9,7 @@ call      = {"types": [names]|null, "tr": null|[start|null, end|null, absolute(b
              "align": 0|1|2, "atypes": null|[names], "idx": bool, "bytes": bool, "nan": bool}
 output    = [{"hist": [[outcome per call] per history], "fresh": {callkey: outcome}, "nomax": {callkey: outcome},
               "avail": [source ids], "need": [need_t0, need_system_t0],
+              "geom": {"off": [...], "size": [...], "fsize": n},
               "nn": [ordinals kept by the reader's remove_nans selection],
               "tt": {json(tr): [ordinals selected by the reader's FileIndex[TimeRange]] | {"exc":..}}}]
 
@@ -193,6 +194,12 @@ def main():
         res = {'hist': [], 'fresh': {}, 'nomax': {},
                'avail': sorted(int(x) for x in first.get_available_source_ids()),
                'need': [bool(getattr(first, '_need_t0', False)), bool(getattr(first, '_need_system_t0', False))]}
+        try:   # geometry of the log for the linked (C10/C11 reader model) mode: offsets, sizes, file size
+            offs = [int(x) for x in first.get_index().offset]
+            fsize = os.path.getsize(path)
+            res['geom'] = {'off': offs, 'size': [b - a for a, b in zip(offs, offs[1:] + [fsize])], 'fsize': fsize}
+        except Exception as e:
+            res['geom'] = {'exc': type(e).__name__}
         res['tt'] = {}
         try:   # the reader's removal of entries without P1 time (filter_out_invalid_p1_times on an unbounded range)
             res['nn'] = [int(x) for x in first.get_index().get_time_range(hint='remove_nans').message_index]
